@@ -113,6 +113,7 @@ type SpecLemma struct {
 	Requires []Expr
 	Ensures  []Expr
 	Assumed  bool
+	Induct   string // proved by induction on this int parameter (n = 0, then n -> n+1), "" otherwise
 	Src      string
 	File     string
 	Line     int
@@ -567,6 +568,9 @@ func (w *World) loadSpecFile(path, pkg string) error {
 					}
 					lm.Ensures = append(lm.Ensures, e)
 				case part == "proved":
+					lm.Assumed = false
+				case strings.HasPrefix(part, "induction "):
+					lm.Induct = strings.TrimSpace(part[len("induction "):])
 					lm.Assumed = false
 				case part == "":
 				default:
